@@ -110,22 +110,31 @@ def _work(lines):
                     "detail": traceback.format_exc()[-1500:]}]
         finally:
             signal.alarm(0)
-        k = key_of(rec["t"])
-        kids = [key_of(c) for c in children(rec["t"])]
+        if "t" in rec:
+            t = rec["t"]
+            k = key_of(t)
+            kids = [key_of(c) for c in children(t)]
+            sig, head = term_sig(t), term_sig(t, 0)
+            kidheads = "|".join(term_sig(c, 0) for c in children(t))
+            n, leaf = node_count(t), not kids
+        else:   # a problem record of an algorithm engine (no single term)
+            t = {x: rec[x] for x in rec if x != "exp"}
+            k, kids, sig, head, kidheads = key_of(t), [], rec.get("sig", rec.get("tag")), rec.get("tag"), ""
+            n, leaf = 3, False
         for r in res:
             if r["status"].startswith("_"):
                 continue
             r.setdefault("key", k)
             r.setdefault("kids", kids)
-            r.setdefault("sig", term_sig(rec["t"]))
-            r.setdefault("head", term_sig(rec["t"], 0))
-            r.setdefault("kidheads", "|".join(term_sig(c, 0) for c in children(rec["t"])))
+            r.setdefault("sig", sig)
+            r.setdefault("head", head)
+            r.setdefault("kidheads", kidheads)
             r.setdefault("tag", rec.get("tag"))
             if r["status"] in ("mismatch", "machinery"):
-                r.setdefault("term", rec["t"])
-                r.setdefault("exp", rec["exp"])
-        out.append({"status": "_rec", "key": k, "leaf": not kids, "n": node_count(rec["t"]),
-                    "sample": rec["t"] if len(line) < 1500 else None})
+                r.setdefault("term", t)
+                r.setdefault("exp", rec.get("exp"))
+        out.append({"status": "_rec", "key": k, "leaf": leaf, "n": n,
+                    "sample": t if len(line) < 1500 else None})
         out.extend(res)
     return out
 
